@@ -14,6 +14,10 @@ import Logrange.Generated.C04
                                (records of the leaf that cannot be read); ops as for `mix` (no append) plus `G` = Get, and once
                                more if it failed; `D` = drain with that retry. `g`/`G` answer `err` for a non-EOF error, `d`/`D` end
                                with `!err` when an error ended them.
+* `qry <offs> <lim> <k> (<idx> <eleaf>){k}` — `Query` after the cursor exists, on the error model: the `k` sources (in tag-line order,
+                               each standing at index `idx`; `<eleaf>` = `E <sticky> <n> <badidx>{n} <leaf>` | `<leaf>`) are
+                               reduced like `newCursor` does, then `crsr.Offset(offs)` (errors dropped) and the read loop with
+                               limit `lim`: `fail` (the loop ended with a non-EOF error: no page) or `page <events|->`
 * `spec.merge <0|1> <leafrecs> | <leafrecs>` — SPEC: `mergeSpec bk xs ys` on two event lists given as leaves
 * `gj <maxLimit> <n>`       — `GetJournals` over `n` matching partitions: `ok <n>` / `err`, then `held=<sum of readers>`
 * `limit`                   — the regenerated merge limit of `newCursor`
@@ -164,6 +168,22 @@ def runOpsE (it : It LeafE) : List String → List String
       ((if es.isEmpty then "-" else ",".intercalate (es.map showEv)) ++ (if er then "!err" else "") ++ suffixE it') :: runOpsE it' ops
     else "bad-op" :: runOpsE it ops
 
+def parseELeaf : List String → Option (LeafE × List String)
+  | "E" :: st :: k :: rest =>
+    let n := k.toNat?.getD 0
+    if rest.length < n then none else
+    match parseLeaf (rest.drop n) with
+    | some (l, r) => some ({ l := l, bad := (rest.take n).map (fun x => x.toNat?.getD 0), sticky := st == "1" }, r)
+    | none => none
+  | toks => (parseLeaf toks).map (fun (l, r) => ({ l := l }, r))
+
+def parseQLeaves : Nat → List String → Option (List LeafE × List String)
+  | 0, r => some ([], r)
+  | k+1, idx :: toks => match parseELeaf toks with
+    | some (l, r) => (parseQLeaves k r).map (fun (ls, r') => ({ l with l := { l.l with idx := idx.toInt?.getD 0 } } :: ls, r'))
+    | none => none
+  | _, _ => none
+
 def afterBar (toks : List String) : List String := (toks.dropWhile (· ≠ "|")).drop 1
 def beforeBar (toks : List String) : List String := toks.takeWhile (· ≠ "|")
 
@@ -191,6 +211,17 @@ def step (_ : Unit) (toks : List String) : Unit × String :=
     | some (ls, []) =>
       (match buildFromMap Logrange.Generated.C04.newCursorSortsSources ls with
        | some it => ((), " ".intercalate (runOps it (afterBar rest)))
+       | none => ((), "nosources"))
+    | _ => ((), "bad-leaves")
+  | "qry" :: offs :: lim :: k :: rest =>
+    match parseQLeaves (k.toNat?.getD 0) rest with
+    | some (ls, []) =>
+      (match build ls with
+       | some it =>
+         let total := (ls.map (fun l => l.l.les.length)).foldl (· + ·) 0
+         (match it.queryE (2 * total + 4) (decide (ls.length > 1)) (offs.toInt?.getD 0) (lim.toNat?.getD 0) with
+          | none => ((), "fail")
+          | some es => ((), "page " ++ (if es.isEmpty then "-" else ",".intercalate (es.map showEv))))
        | none => ((), "nosources"))
     | _ => ((), "bad-leaves")
   | "spec.merge" :: bk :: rest =>
